@@ -34,6 +34,13 @@ def judge(req, obs):
             out.append(("no-false-success" if success else "retry-iff-recoverable",
                         "C08|outcome|kind=%s|class=%s%s|run=%s" % (kind, e1.answer_class(e1.err(t)), "-nononce" if meta.get("nononce") else "", "ge10" if r >= 10 else "lt10"),
                         "attempt %s" % ("succeeds" if want_success else "fails"), "success=%s" % success))
+    if "bounded" in meta:
+        kind, n = meta["bounded"]
+        cnt = len([e for e in e1.reqs_of(obs.get("events", [])) if e["kind"] == kind and e["method"] == "POST"])
+        hung = any(ph.get("run") == "wall-timeout" for ph in obs.get("phases", [])) or obs.get("timeout")
+        if cnt > n or hung:
+            out.append(("<=10-transmissions", "C08|<=10-transmissions|kind=%s|adne+local-save-failure" % kind, "at most %d transmissions of the %s request, and the attempt ends" % (n, kind),
+                        "%d transmissions%s" % (cnt, ", attempt still running when the wall budget ran out" if hung else "")))
     if "polls" in meta:
         which, n = meta["polls"]
         atts = e1.split_attempts(obs.get("events", []))
@@ -109,6 +116,13 @@ def run(ctx):
             q = dict(base)
             q["script"] = [{"kind": kind, "nth": 0, "answer": "status:%d" % code}]
             reqs.append(q)
+    # accountDoesNotExist on every newOrder while the account file cannot be stored (every hook after the first registration fails):
+    # re-registration is a legitimate flow, but the rejected newOrder must not be re-sent without bound
+    for adne_from in (0, 1):
+        q = dict(base)
+        q["script"] = [{"kind": "newOrder", "nth_from": adne_from, "answer": "err:accountDoesNotExist:400"}, {"kind": "hook", "nth_from": 2, "answer": "exit:1"}]
+        q["meta"] = dict(base["meta"], bounded=["newOrder", 10])
+        reqs.append(q)
     # polling bounds
     for which in ["authz_pending_polls", "order_ready_polls", "order_valid_polls"]:
         for n in ([0, 1, 18, 19, 20, 21] if ctx.quick else [0, 1, 2, 5, 17, 18, 19, 20, 21, 25, 40]):
